@@ -11,36 +11,45 @@ variable {H : Type} {ops : HeapOps H}
 
 /-- `Frames` only consults the typing of the lambdas the chain mentions: the current one and those
     of the saved `InstructionPointer`s at or below `top` -/
-theorem Frames.mono_on {T T' : Typing} {e : Nat} {f : Nat → VCell} {top bp l o : Nat} {K : List FDesc}
-    (h : Frames T e f top bp l o K) :
+theorem Frames.mono_on {V : VCell → Prop} {T T' : Typing} {e : Nat} {f : Nat → VCell} {top bp l o : Nat}
+    {K : List FDesc} (h : Frames V T e f top bp l o K) :
     (∀ l1 t, T l1 = some t → (l1 = l ∨ ∃ i o1, i ≤ top ∧ f i = .instrPtr l1 o1) → T' l1 = some t) →
-    Frames T' e f top bp l o K := by
+    Frames V T' e f top bp l o K := by
   induction h with
   | entry h1 h2 h3 h4 => intro hT; exact .entry (hT _ _ h1 (.inl rfl)) h2 h3 h4
-  | @frame top bp l o t st n ep' l' o' bp' K h1 h2 h3 h4 h5 h6 h7 h8 h9 _ ih =>
+  | @frame top bp l o t st n ep' l' o' bp' K h1 h2 h3 h4 h5 h6 h7 h8 h9 hnd hav hnp hc ih =>
     intro hT
     have hle := h4.lo_le
-    refine .frame (hT _ _ h1 (.inl rfl)) h2 h3 h4 h5 h6 h7 h8 h9 (ih ?_)
-    intro l1 t1 ht1 hor
-    refine hT l1 t1 ht1 (.inr ?_)
-    rcases hor with rfl | ⟨i, o1, hi, hf⟩
-    · exact ⟨bp + 3, o', by omega, h7⟩
-    · exact ⟨i, o1, by omega, hf⟩
-  | @pre top bp l o t n ep' l' o' K h1 h2 h3 h4 h5 h6 h7 _ ih =>
+    have hT' : ∀ l1 t1, T l1 = some t1 → (l1 = l' ∨ ∃ i o1, i ≤ bp - n ∧ f i = .instrPtr l1 o1) → T' l1 = some t1 := by
+      intro l1 t1 ht1 hor
+      refine hT l1 t1 ht1 (.inr ?_)
+      rcases hor with rfl | ⟨i, o1, hi, hf⟩
+      · exact ⟨bp + 3, o', by omega, h7⟩
+      · exact ⟨i, o1, by omega, hf⟩
+    exact .frame (hT _ _ h1 (.inl rfl)) h2 h3 h4 h5 h6 h7 h8 h9 hnd hav
+      (hc.np_mono (fun t1 ht1 => hT' _ t1 ht1 (.inl rfl)) hnp) (ih hT')
+  | @pre top bp l o t n ep' l' o' K h1 h2 h3 h4 h5 h6 h7 hav hnp hc ih =>
     intro hT
-    refine .pre (hT _ _ h1 (.inl rfl)) h2 h3 h4 h5 h6 h7 (ih ?_)
-    intro l1 t1 ht1 hor
-    refine hT l1 t1 ht1 (.inr ?_)
-    rcases hor with rfl | ⟨i, o1, hi, hf⟩
-    · exact ⟨top, o', Nat.le_refl _, h5⟩
-    · exact ⟨i, o1, by omega, hf⟩
+    have hT' : ∀ l1 t1, T l1 = some t1 → (l1 = l' ∨ ∃ i o1, i ≤ top - 3 - n ∧ f i = .instrPtr l1 o1) → T' l1 = some t1 := by
+      intro l1 t1 ht1 hor
+      refine hT l1 t1 ht1 (.inr ?_)
+      rcases hor with rfl | ⟨i, o1, hi, hf⟩
+      · exact ⟨top, o', Nat.le_refl _, h5⟩
+      · exact ⟨i, o1, by omega, hf⟩
+    exact .pre (hT _ _ h1 (.inl rfl)) h2 h3 h4 h5 h6 h7 hav
+      (hc.np_mono (fun t1 ht1 => hT' _ t1 ht1 (.inl rfl)) hnp) (ih hT')
 
 /-- **What the stack discipline needs from the collector** (`run_gc`; a parameter, not an axiom):
-    it changes nothing but the heap (`frame`), keeps the heap invariant (`inv`), and neither frees
+    it changes nothing but the heap (`frame`, `acc`), keeps the heap invariant (`inv`), and neither frees
     nor alters a lambda that `ip.0` or a saved `InstructionPointer` on the live stack refers to
-    (`roots`: `run_gc` marks `ip.0` and `stack[0..=sp]`; that marked cells survive unchanged is C03). -/
+    (`roots`: `run_gc` marks `ip.0` and `stack[0..=sp]`; that marked cells survive unchanged is C03), nor
+    the callee object in `acc` when that is the closure / lambda of the code `ip.0` is about to ENTER
+    (`callee`: `acc` is a root too). -/
 structure GcLaws (cl : CodeLaws ops) (gc : St H → St H) : Prop where
   frame : ∀ s, (gc s).stack = s.stack ∧ (gc s).bp = s.bp ∧ (gc s).ipL = s.ipL ∧ (gc s).ipO = s.ipO
+  acc : ∀ s, (gc s).acc = s.acc
+  callee : ∀ s, cl.HInv s.heap → enterLam ops s.heap s.acc = some s.ipL →
+    enterLam ops (gc s).heap s.acc = some s.ipL
   inv : ∀ s, cl.HInv s.heap → cl.HInv (gc s).heap
   roots : ∀ s l bc, cl.HInv s.heap → cl.code s.heap l = some bc →
     (l = s.ipL ∨ ∃ i o, i ≤ s.stack.sp ∧ s.stack.cellAt i = .instrPtr l o) →
@@ -49,37 +58,62 @@ structure GcLaws (cl : CodeLaws ops) (gc : St H → St H) : Prop where
 theorem WFS.gc {cl : CodeLaws ops} {gc : St H → St H} (gl : GcLaws cl gc) {s : St H} {K : List FDesc}
     (hw : WFS cl s K) : WFS cl (gc s) K := by
   obtain ⟨g1, g2, g3, g4⟩ := gl.frame s
-  refine ⟨gl.inv s hw.inv, by rw [g1]; exact hw.wf.cap, ?_⟩
-  rw [g1, g2, g3, g4]
-  refine hw.wf.frames.mono_on ?_
-  intro l1 t ht hor
-  unfold tyOf at ht ⊢
-  cases hc : cl.code s.heap l1 with
-  | none => rw [hc] at ht; cases ht
-  | some bc =>
-    rw [hc] at ht
-    rw [gl.roots s l1 bc hw.inv hc hor]
-    exact ht
+  have hty : ∀ l1 t, tyOf (cl.code s.heap) l1 = some t →
+      (l1 = s.ipL ∨ ∃ i o1, i ≤ s.stack.sp ∧ s.stack.cellAt i = .instrPtr l1 o1) →
+      tyOf (cl.code (gc s).heap) l1 = some t := by
+    intro l1 t ht hor
+    unfold tyOf at ht ⊢
+    cases hc : cl.code s.heap l1 with
+    | none => rw [hc] at ht; cases ht
+    | some bc =>
+      rw [hc] at ht
+      rw [gl.roots s l1 bc hw.inv hc hor]
+      exact ht
+  refine ⟨gl.inv s hw.inv, ⟨by rw [g1]; exact hw.wf.cap, ?_⟩, by rw [gl.acc]; exact hw.acc, ?_⟩
+  · rw [g1, g2, g3, g4]
+    exact hw.wf.frames.mono_on hty
+  · intro t2 n ht2 hpre hA
+    rw [g3] at ht2
+    rw [g4] at hpre
+    rw [g1] at hA
+    obtain ⟨t, _, ht, _⟩ := hw.wf.frames.has_ty
+    have := hty _ t ht (.inl rfl)
+    rw [ht2] at this
+    have e : t2 = t := Option.some.inj this
+    subst e
+    rcases hw.pre t2 n ht hpre hA with h | h
+    · exact .inl h
+    · right
+      rw [g3, gl.acc]
+      exact gl.callee s hw.inv h
 
 /-- the state an evaluation starts in: `prepare_eval` has pointed `ip` at verified entry code, the
     stack pointer is the entry stack pointer -/
 theorem WFS.initial {cl : CodeLaws ops} {s : St H} {entry : Nat} {t : LamTy} (hi : cl.HInv s.heap)
     (ht : tyOf (cl.code s.heap) entry = some t) (hent : t.entry = true)
-    (hsp : s.stack.sp = cl.e) (hcap : s.stack.sp < s.stack.cells.length) :
+    (hsp : s.stack.sp = cl.e) (hcap : s.stack.sp < s.stack.cells.length) (hacc : cl.Val s.acc) :
     WFS cl (prepare s entry) [] := by
-  refine ⟨hi, hcap, ?_⟩
   have h0 : stateAt t.tm 0 = some (.body []) := by
     have := checkAll_init (tyOf_spec ht).2
     rw [hent] at this
     simpa [initState] using this
-  exact Frames.entry (st := .body []) ht hent h0 (by show s.stack.sp = cl.e; exact hsp)
+  refine ⟨hi, ⟨hcap, ?_⟩, hacc, ?_⟩
+  · exact Frames.entry (st := .body []) ht hent h0 (by show s.stack.sp = cl.e; exact hsp)
+  · intro t2 n ht2 hpre _
+    have ht2' : tyOf (cl.code s.heap) entry = some t2 := ht2
+    rw [ht] at ht2'
+    have e : t = t2 := Option.some.inj ht2'
+    subst e
+    have hpre' : stateAt t.tm 0 = some .pre := hpre
+    rw [h0] at hpre'
+    cases hpre'
 
 /-- what the run loop can end in, from a WF state -/
 theorem runLoop_wf {cl : CodeLaws ops} {gc : St H → St H} (gl : GcLaws cl gc) (count : Option Nat) :
     ∀ (fuel cycles : Nat) (s : St H) (K : List FDesc), WFS cl s K →
       match runLoop ⟨vmStep ops, gc⟩ count fuel cycles s with
-      | .done s' => s'.stack.sp = cl.e ∧ cl.HInv s'.heap ∧ s'.stack.sp < s'.stack.cells.length
-      | .error _ s' => cl.HInv s'.heap ∧ s'.stack.sp < s'.stack.cells.length
+      | .done s' => s'.stack.sp = cl.e ∧ cl.HInv s'.heap ∧ s'.stack.sp < s'.stack.cells.length ∧ cl.Val s'.acc
+      | .error _ s' => cl.HInv s'.heap ∧ s'.stack.sp < s'.stack.cells.length ∧ cl.Val s'.acc
       | .paused s' => ∃ K', WFS cl s' K'
       | .fuel => True := by
   intro fuel
@@ -109,7 +143,15 @@ theorem runLoop_wf {cl : CodeLaws ops} {gc : St H → St H} (gl : GcLaws cl gc) 
           cases hst
           subst e1
           rfl
-        exact ⟨by rw [h1]; exact h2, by rw [hh]; exact hw1.inv, by rw [h1]; exact hw1.wf.cap⟩
+        have ha : s2.acc = s1.acc := by
+          unfold step at hst
+          rw [hr] at hst
+          simp only [outcome_bind_ok] at hst
+          cases hst
+          subst e1
+          rfl
+        exact ⟨by rw [h1]; exact h2, by rw [hh]; exact hw1.inv, by rw [h1]; exact hw1.wf.cap,
+          by rw [ha]; exact hw1.acc⟩
       | false =>
         simp only [vmStep, hst]
         obtain ⟨K', hw2, _⟩ := step_preserves hw1 hst
@@ -120,20 +162,20 @@ theorem runLoop_wf {cl : CodeLaws ops} {gc : St H → St H} (gl : GcLaws cl gc) 
           exact ih _ s2 K' hw2
     | err e =>
       simp only [vmStep, hst]
-      exact ⟨hw1.inv, hw1.wf.cap⟩
+      exact ⟨hw1.inv, hw1.wf.cap, hw1.acc⟩
     | panic m =>
       simp only [vmStep, hst]
-      exact ⟨hw1.inv, hw1.wf.cap⟩
+      exact ⟨hw1.inv, hw1.wf.cap, hw1.acc⟩
 
 /-! ## a live frame keeps its description -/
 
 /-- the frames of a chain start at strictly decreasing indices, all above the entry `sp` -/
-theorem Frames.bases {T : Typing} {e : Nat} {f : Nat → VCell} {top bp l o : Nat} {K : List FDesc}
-    (h : Frames T e f top bp l o K) :
+theorem Frames.bases {V : VCell → Prop} {T : Typing} {e : Nat} {f : Nat → VCell} {top bp l o : Nat}
+    {K : List FDesc} (h : Frames V T e f top bp l o K) :
     (∀ d ∈ K, e < d.base ∧ d.base ≤ top) ∧ K.Pairwise (fun a b => b.base < a.base) := by
   induction h with
   | entry => exact ⟨by simp, List.Pairwise.nil⟩
-  | @frame top bp l o t st n ep' l' o' bp' K h1 h2 h3 h4 h5 h6 h7 h8 h9 hc ih =>
+  | @frame top bp l o t st n ep' l' o' bp' K h1 h2 h3 h4 h5 h6 h7 h8 h9 _ _ _ hc ih =>
     have hle := h4.lo_le
     have hel := hc.e_le
     refine ⟨?_, List.Pairwise.cons ?_ ih.2⟩
@@ -146,7 +188,7 @@ theorem Frames.bases {T : Typing} {e : Nat} {f : Nat → VCell} {top bp l o : Na
       have := ih.1 d hd
       show d.base < bp + 1 - n
       omega
-  | @pre top bp l o t n ep' l' o' K h1 h2 h3 h4 h5 h6 h7 hc ih =>
+  | @pre top bp l o t n ep' l' o' K h1 h2 h3 h4 h5 h6 h7 _ _ hc ih =>
     have hel := hc.e_le
     refine ⟨?_, List.Pairwise.cons ?_ ih.2⟩
     · intro d hd
